@@ -177,7 +177,7 @@ impl Phase for DeepNest {
         use crate::refmodel::parse::Ast;
         if r.chance(1, 3) {
             // long flat sequences: hundreds of elements with effects
-            let n = r.range(100, 700);
+            let n = if r.chance(1, 2) { r.range(100, 700) } else { (*r.pick(&gen::BOUNDARY_SIZES[..31])).max(2) };
             let elems: Vec<Ast> = (1..=n as i64)
                 .map(|k| match k % 5 {
                     0 => Ast::Assign("=", "x".into(), Box::new(Ast::Const(RV::Int(k)))),
